@@ -5,8 +5,20 @@ MARK_PRELUDE = r'''
 use crate::vm::vector::Vector;
 use crate::vm::environment::LexicalEnvironment;
 use crate::{vector_view, env_view};
-/// heap cells a continuation / a code object refers to
-pub uninterp spec fn cont_kid(c: Continuation, k: int) -> bool;
+/// heap cells a continuation refers to: whatever the slots of its saved stack refer to, the code object of its saved instruction
+/// pointer and its saved environment.  Continuation is opaque (private fields, derives over a tuple): its getters are assumed to
+/// return these views (one-line field reads)
+use crate::vm::stack::Stack;
+use vstd::std_specs::iter::IteratorSpec;
+pub uninterp spec fn cont_stack(c: Continuation) -> Stack;
+pub uninterp spec fn cont_ip(c: Continuation) -> (usize, usize);
+pub uninterp spec fn cont_ep(c: Continuation) -> usize;
+pub assume_specification [Continuation::stack] (c: &Continuation) -> (r: &Stack) ensures *r == cont_stack(*c);
+pub assume_specification [Continuation::ip] (c: &Continuation) -> (r: &(usize, usize)) ensures *r == cont_ip(*c);
+pub assume_specification [Continuation::ep] (c: &Continuation) -> (r: usize) ensures r == cont_ep(*c);
+pub open spec fn cont_kid(c: Continuation, k: int) -> bool {
+    seq_kid(cont_stack(c).cells(), k) || k == cont_ip(c).0 || k == cont_ep(c)
+}
 /// a code object refers to whatever its bytecode cells, its formal-argument cells and the symbols of its environment map refer to
 pub uninterp spec fn envmap_view(m: crate::vm::environment::EnvironmentMap) -> Seq<(VCell, crate::vm::environment::BindingSource)>;
 pub assume_specification [crate::vm::environment::EnvironmentMap::get_map] (m: &crate::vm::environment::EnvironmentMap) -> (r: &[(VCell, crate::vm::environment::BindingSource)])
@@ -123,10 +135,21 @@ PRES_PROOF = '''proof {
 }'''
 
 MARK_FNS = {
-    # iterate an opaque `impl Iterator` (Stack::iter) resp. slices of tuples: contract assumed, not verified
+    # walks the saved stack through the opaque iterator of Stack::iter (its contract: unit stack), then the saved ip and ep
     'impl Heap::mark_continuation': {
-        'props': M, 'trusted': True, 'requires': MREQ,
-        'ensures': [(M, 'final(self).mark_ok(*old(self))'), (M, PRESERVES), (M, MONO), (M, 'final(self).all_marked(|k: int| cont_kid(*cont, k))')],
+        'props': M + ['C05', 'C06'], 'requires': MREQ,
+        'attrs': '#[verifier::exec_allows_no_decreases_clause]',
+        'ensures': [(M, 'final(self).mark_ok(*old(self))'), (M, PRESERVES), (M, MONO), (M + ['C05'], 'final(self).all_marked(|k: int| cont_kid(*cont, k))')],
+        'body_start': 'proof { lemma_mark_refl(*old(self)); } let ghost rem = cont_stack(*cont).cells();',
+        'loop_iter': {0: 'iter'},
+        'loops': {0: '''invariant self.mark_ok(*old(self)),
+                    iter.iter.obeys_prophetic_iter_laws(), iter.iter.decrease() is Some, iter.seq().len() == rem.len(),
+                    forall|j: int| 0 <= j < rem.len() ==> *(#[trigger] iter.seq()[j]) == rem[j],
+                    forall|j: int, k: int| 0 <= j < iter.index@ && #[trigger] vkid(rem[j], k) && 0 <= k < old(self).len() ==> self.marked(k),
+                ensures
+                    forall|j: int, k: int| 0 <= j < rem.len() && #[trigger] vkid(rem[j], k) && 0 <= k < old(self).len() ==> self.marked(k),'''},
+        'loop_count': 1,
+        'body_end': PRES_PROOF,
     },
     'impl Heap::mark_lambda': {
         'props': M + ['C06'], 'requires': MREQ,
